@@ -238,7 +238,7 @@ PROPS = {
                     'deterministic iteration order in the sizing-command tokenizer; forms/seeds/isolation bounded'),
     'C18': dict(
         select=lambda c: c.qual.startswith('data.TexArgs.') or c.qual in ('data.TexExpr.__init__', 'data.TexCmd.__str__',
-                                                                           'data.TexEnv.__str__'),
+                                                                           'data.TexEnv.__str__', 'data.TexExpr.__eq__'),
         level='other', bounded=['c18.py'],
         lemmas=['M1 simulation: every TexArgs method refines the corresponding list operation on the view `items`, so every '
                 'finite history does (induction on length; mechanised: lemmas/Lemmas.lean M1_simulation)'],
@@ -310,7 +310,8 @@ PROPS = {
     'C14': dict(
         select=lambda c: c.qual in ('data.TexArgs.__getitem__', 'data.TexArgs.__init__', 'data.TexArgs.reverse',
                                     'data.TexArgs.append', 'data.TexArgs.insert', 'data.TexCmd.__str__', 'data.TexEnv.__str__',
-                                    'data.TexArgs.__str__', 'data.TexExpr.__init__'),
+                                    'data.TexArgs.__str__', 'data.TexExpr.__init__', 'data.TexExpr.__eq__',
+                                    'data.TexExpr.__match__', 'data.TexEnv.__match__', 'data.TexNode.__match__'),
         level='other', bounded=['edits.py'],
         assumptions=['the name/string/args setters of TexNode and TexExpr are plain field stores and are not separately under '
                      'contract; "re-parsing shows the same change" needs the parser on a new string: bounded'],
